@@ -63,10 +63,35 @@ def run_harnesses(prop, specs, repo_root, tier):
             try:
                 p = subprocess.Popen(cmd, cwd=scratch, env=env, stdout=subprocess.PIPE, stderr=subprocess.STDOUT,
                                      text=True, start_new_session=True)
+                import signal
+                import threading
+                killed = {}
+
+                def watchdog():
+                    # memory watchdog: CBMC on SmallVec / BitVec / Arc code was seen to take 25+ GB
+                    limit_kb = int(s.get('mem_gb', 10)) * 1024 * 1024
+                    while p.poll() is None:
+                        try:
+                            pg = os.getpgid(p.pid)
+                            out_ps = subprocess.run(['ps', '-e', '-o', 'pgid=,rss='], capture_output=True, text=True).stdout
+                            rss = 0
+                            for ln_ in out_ps.split('\n'):
+                                f_ = ln_.split()
+                                if len(f_) == 2 and f_[0] == str(pg) and f_[1].isdigit():
+                                    rss += int(f_[1])
+                            if rss > limit_kb:
+                                killed['mem'] = rss
+                                os.killpg(p.pid, signal.SIGKILL)
+                                return
+                        except Exception:  # noqa: BLE001
+                            pass
+                        time.sleep(3)
+                threading.Thread(target=watchdog, daemon=True).start()
                 try:
                     text, _ = p.communicate(timeout=tmo + 240)
+                    if killed:
+                        text = (text or '') + '\nMEMORY LIMIT (%d MB)' % (killed['mem'] // 1024)
                 except subprocess.TimeoutExpired:
-                    import signal
                     os.killpg(p.pid, signal.SIGKILL)
                     text = (p.communicate()[0] or '') + '\nTIMEOUT'
             except Exception as e:  # noqa: BLE001
